@@ -104,7 +104,7 @@ func genOp(r *simfw.RNG, m string) Op {
 		return o
 	case 5, 6, 7, 8:
 		o := Op{Kind: "vreq", Router: rt, Method: "PUT", Path: ver + "/pets/3", CT: "application/json", Body: petBody(r, m, r.Chance(2, 3)),
-			Multi: r.Chance(1, 3), SkipDefaults: r.Chance(1, 4), Regex: simfw.Pick(r, []string{"", "", "", "any", "none"}), Auth: simfw.Pick(r, []string{"ok", "ok", "fail", "read_ok"})}
+			Multi: r.Chance(1, 3), SkipDefaults: r.Chance(1, 4), Regex: simfw.Pick(r, []string{"", "", "", "any", "none", "panic"}), Auth: simfw.Pick(r, []string{"ok", "ok", "fail", "read_ok", "panic"})}
 		o.Headers = append(o.Headers, [2]string{"X-Key", "k"})
 		if r.Chance(1, 3) {
 			o.Query = "dry=true"
